@@ -843,6 +843,7 @@ let handle_accept fields =
       if not impl_ok then begin
         if Accept.k_c04_rejected (nat_of_int ii) then known_hit "accept" (c04_key ii) input
         else if Accept.k_ctx_empty (nat_of_int cc) (nat_of_int ii) then known_hit "accept" "C16.empty_stmt_after_item" input
+        else if Accept.k_box_top (nat_of_int cc) (nat_of_int ii) then known_hit "accept" "C04.box_statement_needs_semicolon" input
         else oracle_fail "accept" input ("FAIL C04: " ^ n ^ " syntax diagnostics on a statement of the reference grammar")
       end
     end
